@@ -350,8 +350,9 @@ def run(tier, seed):
     cov = {
         'states': len(STATES), 'transitions': total, 'traces_validated_against_impl': total,
         'evaluations': total, 'distinct_nontrivial': len(classes),
-        'samples': [{'state': 'openconfirm', 'request': 'POST /v1/peer/10.0.0.2/send/update', 'credentials': 'wrong-password'},
-                    {'state': 'established', 'request': 'POST send/update attrs+nlri+withdraw', 'session': 'iBGP'}],
+        'samples': [{'state': report.pick(list(STATES), seed + i, 1)[0], 'rule': r.rule, 'method': report.pick(METHODS, seed + i, 1)[0],
+                     'credentials': report.pick(list(CREDS), seed + i, 1)[0]} for i, r in enumerate(report.pick(rules(), seed, 2))]
+        + [{'state': 'established', 'request': 'POST send/update', 'body': {'attr': c[0], 'nlri': c[1], 'withdraw': c[2]}} for c in report.pick(pool, seed, 1)],
         'rules_under_v1_peer': [r.rule for r in rules()], 'methods': list(METHODS), 'credential_classes': list(CREDS),
         'session_states': list(STATES), 'send_pool': len(pool) * 2,
         'explanation': '%d URL rules (enumerated from app.url_map at run time) x %d methods x %d credential classes x %d session states, '
